@@ -88,6 +88,8 @@ else:                                          # ("mod", i, ((option, replacemen
 def make_config(cfg, support=True):
     ns = {"code_generation_options": [FLAGS[f] for f in cfg.get("flags", ["dialect"])],
           "serialization_strategy": dict(TAG0)}
+    if SPEC.get("lazy"):
+        ns["lazy_compilation"] = True
     if SPEC.get("cfg_int"):               # a class-level strategy below every dialect
         ns["serialization_strategy"][int] = {"serialize": (lambda v: v + 7), "deserialize": (lambda v: v - 7)}
     for o in ("omit_none", "omit_default", "serialize_by_alias", "namedtuple_as_dict"):
@@ -109,6 +111,7 @@ FIELD_SRC = {
     "inner": "Inner = field(default_factory=Inner)",
     "optstr": "Optional[str] = None",
     "bytes": "bytes = b'ab'",
+    "plain": "Plain = field(default_factory=Plain)",
     "selfopt": "Optional[Self] = None",
     "selflist": "List[Self] = field(default_factory=list)",
 }
@@ -116,7 +119,8 @@ FIELD_SRC = {
 
 def class_src(name: str, cspec: dict) -> str:
     base = cspec.get("base") or cspec.get("mixin") or "DataClassDictMixin"
-    lines = ["@dataclass", f"class {name}({base}):", f"    t_{name}: Tag = field(default_factory=Tag)"]
+    head = f"class {name}:" if cspec.get("plain_dataclass") else f"class {name}({base}):"
+    lines = ["@dataclass", head, f"    t_{name}: Tag = field(default_factory=Tag)"]
     for f, kind in cspec["fields"]:
         lines.append(f"    {f}: " + FIELD_SRC[kind].format(f=f))
     if cspec.get("config") is not None:
@@ -176,6 +180,8 @@ class Family:
                 v = self.ns["NT"](*v)
             elif kind == "inner":
                 v = self.instance("Inner", v)
+            elif kind == "plain":
+                v = self.instance("Plain", v)
             elif kind == "list":
                 v = list(v)
             elif kind == "bytes":
